@@ -8,7 +8,7 @@ import z3
 from . import common, lib, den, equation_contracts, sector_contracts  # noqa
 from . import C05 as _c05  # noqa  (_GenerateFullSectorCodes: country prefix iff more than one country; GetVariableName)
 
-P = Property('C18', 'proof',
+P = Property('C18', 'other',
              'Contracts on the real AST of the constructors that take name parameters (HouseholdWithExpectations.__init__, Household.__init__, '
              'BaseHousehold.__init__, FixedMarginBusiness.__init__: every variable and equation text is built from the names given, none from a '
              'literal GOOD / LAB), of CurrencyZone.GetSectors / LookupSector (searches see exactly the sectors of the countries of the zone) and, from '
